@@ -171,6 +171,24 @@ def handleEnd (seq which : String) (driven : List String) : List String :=
         [s!"DIFF\t{seq}\tESM-guarded handler {qname h} was never driven after an emergency shutdown"] else []) ++ acc) []
   else [s!"BAD\t{seq}\tgrd.end {which}"]
 
+/-- two apps under liquidation, the control on for exactly one: judged per VAULT's app. `controlled` = the control is on for the
+app the vault belongs to; `crossed` = the message names the other app. -/
+def handleXapp (seq kind unit scn ctl vaultApp namedApp : String) (controlled crossed : Bool) (outcome : String) (touched : Bool) : List String :=
+  let accepted := outcome == "ok"
+  if kind == "sweep" then
+    let m1 := if controlled && touched then [s!"MON\t{seq}\tsweep_skips\t{unit} {scn}: the vault of the controlled app {vaultApp} was liquidated"] else []
+    let d1 := if !controlled && !touched && outcome != "panic" then
+        [s!"DIFF\t{seq}\t{unit} {scn}: the liquidatable vault of the clear app {vaultApp} must be liquidated by the sweep"] else []
+    m1 ++ d1
+  else
+    let mon := if ctl == "esm" then "esm_closed" else "breaker_closed"
+    let m1 := if controlled && (accepted || touched) then [s!"MON\t{seq}\t{mon}\t{unit} {scn}: vault of controlled app {vaultApp} liquidated by a message naming {namedApp}"] else []
+    let m2 := if crossed && (accepted || touched) then [s!"MON\t{seq}\tposition_consistent\t{unit} {scn}: message naming app {namedApp} acted on a vault of app {vaultApp}"] else []
+    let m3 := if !accepted && touched then [s!"MON\t{seq}\trejected_no_change"] else []
+    let d1 := if !controlled && !crossed && ctl == "none" && !accepted then
+        [s!"DIFF\t{seq}\t{unit} {scn}: with all controls clear the straight liquidate message must succeed, impl={outcome}"] else []
+    m1 ++ m2 ++ m3 ++ d1
+
 def handle (st : St) (seq : String) (f : List String) : St × List String :=
   let st' := { st with n := st.n + 1 }
   match f with
@@ -182,6 +200,10 @@ def handle (st : St) (seq : String) (f : List String) : St × List String :=
       let st2 := if expect == "submit" then st' else if auth then (if outcome == "ok" then st'.mark ("auth:" ++ k) else st') else st'.mark ("unauth:" ++ k)
       (st2, handleEntry seq kind name scn caller auth base expect outcome de changed)
     | _, _, _ => (st', [s!"BAD\t{seq}\tgrd.entry flags"])
+  | ["grd.xapp", kind, unit, scn, ctl, vaultApp, namedApp, controlled, crossed, outcome, touched] =>
+    match b? controlled, b? crossed, b? touched with
+    | some controlled, some crossed, some touched => (st', handleXapp seq kind unit scn ctl vaultApp namedApp controlled crossed outcome touched)
+    | _, _, _ => (st', [s!"BAD\t{seq}\tgrd.xapp flags"])
   | ["grd.end", which] => (st', handleEnd seq which st'.driven)
   | ["grd.msg", handler, scn, owner, names, admin, brk, esm, needs, off, mode, base, outcome, pe, bc, vs] =>
     match b? owner, b? names, b? admin, b? brk, b? base, b? pe, b? bc, b? vs with
